@@ -56,7 +56,11 @@ def parse_build(line):
     for x in (m.group(2).split(';') if m.group(2) else []):
         name, _, op = x.partition(':')
         instrs.append((name, op if op != '' else None))
-    jumps = [int(x) for x in m.group(3).split(';') if x != '']
+    # `<none>`: an entry below the reported jump-table length that the data object cannot read back (an ill-formed object)
+    try:
+        jumps = [int(x) for x in m.group(3).split(';') if x != '']
+    except ValueError:
+        return None
     meta = [None if x == '-' else int(x) for x in m.group(4).split(';') if x != '']
     return int(m.group(1)), instrs, jumps, meta
 
